@@ -1374,3 +1374,153 @@ def r11(cx):
 
 
 RS.explanation += ' Every state change of a simulated process is followed by SIGCHLD for its parent (R11).'
+
+
+# --- wave 5: a pipeline member that keeps the read end of its own output pipe never lets the next member see EOF, and the
+# shell's wait loop for the pipeline never ends (seed C13-s10: with stdin and stdout closed in the shell, pipe() returns (0, 1))
+from rules.C14 import r2 as _c14_pipeline_child_closes_every_pipe_end
+from engine import Rule
+RS.rules.append(Rule('C13.R12', 'K-PASS', 'every member of a pipeline closes the read end of its own output pipe on every path on which '
+                     'that pipe exists, whatever descriptor numbers pipe() returned: otherwise the next member never sees EOF and the '
+                     "shell waits for the pipeline's children for ever (C14.R2)", _c14_pipeline_child_closes_every_pipe_end))
+RS.explanation += ' A pipeline member closes the read end of its own output pipe on every path (R12 = C14.R2), so the wait loop terminates.'
+
+
+# ---------------------------------------------------------------------------------------
+# wave 5 (seed C13-s9: exit_or_raise re-raised only the signals that terminate WITHOUT a core dump, so a subshell whose last
+# command died of QUIT / ABRT / SEGV exited with the status truncated to 8 bits: the parent saw Exited(131), not Signaled)
+_R13_ROOT = 'yash_env::semantics::exit_or_raise'
+_R13_SEND = [re.compile(r'::SendSignal::(raise|kill)$')]
+# reviewed conditions: callee producing the tested value -> (the only outcome under which the signal is sent, what it says)
+_R13_REVIEWED = [
+    (re.compile(r'^yash_env::semantics::ExitStatus::to_signal$'), None, ('Some',), 'the exit status maps to a signal'),
+    (re.compile(r'(::parse$|FromStr>::from_str$)'), 'yash_env::signal::Name', ('Ok',), 'the signal has a name known to the shell'),
+    (re.compile(r'::SignalEffect::of$'), None, ('Terminate',), 'the default action of the signal terminates the process'),
+    (re.compile(r'::SetRlimit::setrlimit$'), None, ('Continue', 'Ok'), 'core dumps of the re-raising process were disabled'),
+]
+
+
+def _r13_constructors(F, bodies, fn):
+    """(body, block) of every place of the family where `fn` is called or its closure / coroutine is built."""
+    out = []
+    for b in bodies:
+        for blk, t in b.calls():
+            f = t.get('f') or {}
+            if fn in (f.get('def'), f.get('decl')) or any(isinstance(a, dict) and a.get('fn') == fn for a in t['a']):
+                out.append((b, blk))
+        for blk, j, st in b.stmts():
+            if st['k'] == 'assign' and st['rv']['k'] == 'agg' and st['rv'].get('ak') in ('closure', 'coroutine') and st['rv'].get('def') == fn:
+                out.append((b, blk))
+    return out
+
+
+def _r13_classify(F, body, du, org, lab):
+    """(True, text) for a reviewed condition, (False, text, kind) for any other."""
+    if org['k'] == 'discr':
+        ty = org['ty']
+        if ty.startswith('core::task::poll::Poll<'):
+            return (lab == ('variant', 'Ready'), 'an awaited future is ready', 'extra')
+        src = Q.value_source(body, du, {'cp': org['pl']}) if Q.is_plain(org['pl']) else None
+        if src is not None:
+            for pat, ty_has, outcomes, text in _R13_REVIEWED:
+                if Q.callee_is(src, [pat]) and (ty_has is None or ty_has in ty):
+                    if lab[0] == 'variant' and lab[1] in outcomes:
+                        return (True, text)
+                    return (False, '%s yields %s' % (pp.callee(src).split('::')[-1], lab[-1]), 'kind' if 'SignalEffect' in ty else 'extra')
+            return (False, 'the %s outcome of %s' % (lab[-1], pp.callee(src)), 'kind' if 'ignal' in ty else 'extra')
+        return (False, 'the discriminant of a value of type %s being %s' % (ty, lab[-1]), 'kind' if 'ignal' in ty else 'extra')
+    if org['k'] == 'place':
+        p = org['pl']
+        lty = body.locals[p['l']].get('ty') or ''
+        if not p.get('p') and lty == 'bool':
+            # a materialised test (`matches!`, `let ok = a && b`): its content is among the implied conditions, classified on their own
+            defs = [st for _, _, st in body.stmts() if st['k'] == 'assign' and st['lhs']['l'] == p['l'] and not st['lhs'].get('p')]
+            cdefs = [t for _, t in body.calls() if t['dest']['l'] == p['l'] and not t['dest'].get('p')]
+            consts = [str(st['rv']['o'].get('c')) for st in defs if st['rv']['k'] == 'use' and 'c' in st['rv']['o']]
+            if defs and not cdefs and len(consts) == len(defs) and lab[0] == 'bool' \
+                    and sum(1 for c in consts if (c == 'true') == lab[1]) == 1:
+                return (True, 'materialised test (its single %s definition is examined through the implied conditions)' % str(lab[1]).lower())
+            srcs = {Q.json.dumps(Q.operand_place(st['rv']['o']), sort_keys=True) if st['rv']['k'] == 'use' else None for st in defs}
+            if defs and not cdefs and len(srcs) == 1 and None not in srcs and 'null' not in srcs:
+                return (True, 'copy of another flag (examined on its own)')
+        fields = [e['f'] for e in (p.get('p') or []) if isinstance(e, dict) and 'f' in e]
+        nm = Q.operand_name(body, du, {'cp': p}) or body.local_name(p['l']) or '_%d' % p['l']
+        what = 'the value of %s%s (type %s)' % (nm, ('.' + '.'.join(map(str, fields))) if fields and '.' not in str(nm) else '', lty)
+        return (False, what, 'kind' if ('SignalEffect' in lty or 'signal::' in lty) else 'extra')
+    if org['k'] == 'call':
+        sty = ' '.join(str(x) for x in (org['t'].get('at') or []))
+        return (False, 'the result of %s' % pp.callee(org['t']), 'kind' if ('ignal' in sty or 'ignal' in pp.callee(org['t'])) else 'extra')
+    if org['k'] == 'unop' and org['rv'].get('op') == 'Not':
+        # fail closed: the operand of a materialised negation is not followed by implied_conditions
+        return (False, 'a negated value that is not one of the reviewed tests', 'extra')
+    return (False, 'a computed value (%s)' % org['k'], 'extra')
+
+
+@RS.rule('C13.R13', 'K-GUARD', 'a subshell whose last command was killed by a signal dies of that signal itself: in exit_or_raise the signal is '
+         'sent to the own process for EVERY exit status that maps to a terminating signal - the only conditions on the way to the '
+         'raise are the reviewed ones (to_signal is Some, the name parses, SignalEffect::of is Terminate, setrlimit succeeded); '
+         'none looks at the kind of the signal (core dump, name, number), or the parent sees Exited(128+n) instead of Signaled')
+def r13(cx):
+    F = cx.F
+    cx.require(_R13_ROOT in F.bodies, '%s not found' % _R13_ROOT)
+    family = [F.bodies[f] for f in sorted(F.bodies) if f == _R13_ROOT or f.startswith(_R13_ROOT + '::')]
+    inl = {}
+    for b in family:
+        try:
+            inl[b.fn] = F.inlined(b)
+        except Exception:
+            inl[b.fn] = b
+    bodies = [inl[b.fn] for b in family]
+    cx.fn(_R13_ROOT)
+    sends = [(b, blk, t) for b in bodies for blk, t in Q.find_calls(b, _R13_SEND)]
+    if not sends:
+        cx.site('%s and its nested functions: no SendSignal::raise / kill call' % _R13_ROOT)
+        cx.violation(_R13_ROOT, 'signal-never-re-raised', 'exit_or_raise never sends a signal to the own process: a subshell whose last command '
+                     'was killed by a signal exits normally with the status truncated to 8 bits (the parent sees 128+n, Exited, instead of '
+                     '384+n, Signaled)')
+        return
+    # every send reaches the process itself only if an entry of exit_or_raise leads to it: walk up from the send to the entry of
+    # the root (closure -> where it is built, nested async fn -> where it is called), classifying every dominating condition
+    n = 0
+    for sb, sblk, st_ in sends:
+        seen = set()
+        work = [(sb, sblk)]
+        reached_root = False
+        while work:
+            b, blk = work.pop()
+            if (b.fn, blk) in seen:
+                continue
+            seen.add((b.fn, blk))
+            cx.fn(b.fn)
+            du = Q.DefUse(b)
+            for org, lab, edge in Q.implied_conditions(F, b, du, blk):
+                res = _r13_classify(F, b, du, org, lab)
+                n += 1
+                cx.site('%s: the %s at %s is reached only when %s: reviewed=%s'
+                        % (b.fn, pp.callee(st_).split('::')[-1], sb.loc(st_), res[1], res[0]))
+                if res[0]:
+                    continue
+                if res[2] == 'kind':
+                    cx.violation(_R13_ROOT, 'raise-depends-on-kind-of-signal', 'whether the subshell kills itself with the signal that killed '
+                                 'its last command additionally depends on %s: for the signals excluded by that test (e.g. those whose '
+                                 'default action dumps core: QUIT, ABRT, SEGV) the subshell exits with the status truncated to 8 bits, '
+                                 'so `(sh -c \'kill -QUIT $$\'); echo $?` in a subshell of a subshell reports 131 / Exited instead of '
+                                 '387 / Signaled' % res[1], loc=b.loc(b.term(edge[0])))
+                else:
+                    cx.violation(_R13_ROOT, 'extra-guard-on-raise', 'whether the subshell kills itself with the signal that killed its last '
+                                 'command additionally depends on %s, which is not one of the reviewed conditions (status maps to a '
+                                 'signal, known name, default action Terminate, core limit set): when it fails the parent sees a normal '
+                                 'exit with a truncated status instead of a death by signal' % res[1], loc=b.loc(b.term(edge[0])))
+            if b.fn == _R13_ROOT:
+                reached_root = True
+                continue
+            up = _r13_constructors(F, bodies, b.fn)
+            cx.require(up, 'C13.R13: no place in %s calls / builds %s, which contains (the way to) the %s call: no verdict'
+                       % (_R13_ROOT, b.fn, pp.callee(st_)))
+            work.extend(up)
+        cx.require(reached_root, 'C13.R13: the chain from the %s call up to the entry of %s was not reconstructed' % (pp.callee(st_), _R13_ROOT))
+    cx.floor(n, 4, 'conditions on the way to the raise in exit_or_raise (to_signal, name, effect, setrlimit)')
+
+
+RS.explanation += (' A subshell that ends with a signal-killed status re-raises the signal whatever its kind: the raise in exit_or_raise '
+                   'is dominated by the reviewed conditions only (R13).')
